@@ -8,13 +8,34 @@ delegation (DESIGN.md §12.1)
 
 * a sub-expression that is not hard, met in a non-hard context, is handed to the automata engine as a
   whole (`compile_delegate`): always fine — the context only ever consumes its first result;
-* in a hard context a `Delegate` instruction must stand for a piece *without capture groups* (a
-  class, a case-insensitive literal, a constant-size easy prefix / suffix of a concatenation): all
-  results of such a piece are the same state, so taking the first one loses nothing. Pieces with
-  groups there would need a non-interference argument and stay outside the proved stage;
+* in a hard context a `Delegate` instruction must stand for a piece all of whose results are one and
+  the same state: a constant-size piece *without capture groups* (a class, a case-insensitive
+  literal, an easy prefix / suffix of a concatenation), or a *linear* piece (no alternation, no
+  variable repeat: at most one result, capture groups allowed). Taking the first result then loses
+  nothing. Ambiguous pieces with groups there (`(a|b)` in front of a hard item) would need a
+  non-interference argument and stay outside the proved stage;
 * everything else as in `s2ok`.
 -/
 namespace Fancy
+
+mutual
+/-- "linear": no choice anywhere — literals, classes, `.`, assertions, groups, concatenations and
+    exact-count repeats of such. A linear expression has at most one result from any state, so its
+    first result stands for all of them even when it contains capture groups. -/
+def linearE : Expr → Bool
+  | .empty => true
+  | .any _ => true
+  | .assertion _ => true
+  | .literal _ _ => true
+  | .delegate _ _ _ => true
+  | .concat es => linearAll es
+  | .group _ e => linearE e
+  | .repeat e lo hi _ => linearE e && hi == some lo
+  | _ => false
+def linearAll : List Expr → Bool
+  | [] => true
+  | e :: es => linearE e && linearAll es
+end
 
 mutual
 def s3ok (br : Nat → Bool) : Expr → Bool → Bool
@@ -29,7 +50,8 @@ def s3ok (br : Nat → Bool) : Expr → Bool → Bool
     | .concat es =>
       let sp := concatSplit br es hard
       s3okAll br es && noBareEndZAll es &&
-        groupCountList (es.take sp.1) == 0 && (!hard || groupCountList (es.drop sp.2) == 0)
+        (groupCountList (es.take sp.1) == 0 || linearAll (es.take sp.1)) &&
+        (!hard || groupCountList (es.drop sp.2) == 0 || linearAll (es.drop sp.2))
     | .alt es => !es.isEmpty && s3okAlts br es hard
     | .group _ e => s3ok br e hard
     | .repeat e lo hi _ =>
